@@ -531,7 +531,8 @@ def rule_f(ctx):
     mk = {k.value: norm(v) for d in meta[:1] for k, v in zip(d.keys, d.values) if isinstance(k, ast.Constant)}
     ctx.ob(R, f.qname, "the canvas metadata carries those dimensions and that origin", dims_ok and len(meta) == 1 and mk.get("dimensions") == am.actual("dims") and mk.get("origin") == am.actual("origin"), str(mk), f.node)
     adds = [s_ for s_ in ast.walk(f.node) if isinstance(s_, (ast.AugAssign, ast.Assign)) and ".img" in norm(s_.target if isinstance(s_, ast.AugAssign) else s_.targets[0])]
-    ctx.ob(R, f.qname, "every warped input is added (+=) to the canvas array", len(adds) == 2 and all(isinstance(a, ast.AugAssign) and isinstance(a.op, ast.Add) for a in adds), str([norm(a) for a in adds]), f.node)
+    ctx.ob(R, f.qname, "every warped input is added (+=) to the canvas array", len(adds) == 2 and all(isinstance(a, ast.AugAssign) and isinstance(a.op, ast.Add) for a in adds), str([norm(a) for a in adds]), f.node,
+           evidence=any(isinstance(a, ast.Assign) and isinstance(a.value, ast.Name) and not isinstance(a.targets[0], ast.Name) for a in adds))  # the canvas data are replaced by one warped input
     am.let("canvas", "np.zeros(shape, dtype=dtype)")
     zero = am.has(f.node, "image = ImageType(img=canvas, **meta)")
     ctx.ob(R, f.qname, "the canvas array starts from zeros", zero is not None, "", f.node)
